@@ -110,6 +110,8 @@ def check(ctx: Ctx) -> None:
     from ..dsf import auto_memo_check
     ctx.rule('C18.c', 'no auto-discovered lazily filled cache of the classes in the anchored modules can be stale at the exit of a public method (dependencies = what the fill expression reads, incl. mutating calls on held sub-objects)', floor=4)
     auto_memo_check(ctx, 'C18.c', [RS, SRS, DMRS, 'pyphysim/reference_signals/channel_estimation.py'])
+    from ..idioms import check_input_immutability, public_api
+    check_input_immutability(ctx, 'C18.f', public_api(ctx.model, [RS, ZC, SRS, DMRS], constructors=True), floor=8)
     _check_inputs_untouched(ctx)
     _check_extension(ctx)
     # ------------------------------------------------------------------ C18.b
